@@ -989,11 +989,16 @@ http_data_decode_chunked(uint8_t *data, size_t data_size,
 		if (tm > (size_t)(max_pos - (end_line + 2)))
 			return (EINVAL); /* Out of buf range. */
 		cur_pos = (end_line + 2 + tm);
+		/* Skip CRLF after chunk data: next line is the next chunk size. */
+		if (2 <= (size_t)(max_pos - cur_pos) &&
+		    0 == memcmp(cur_pos, CRLF, 2)) {
+			cur_pos += 2;
+		}
 		ret_size += tm;
 		/* No copy/move for first chunk, just change pointer. */
 		if (NULL == cur_wr_pos) {
 			(*data_ret) = (end_line + 2);
-			cur_wr_pos = cur_pos; /* Next chunk will be after first. */
+			cur_wr_pos = (end_line + 2 + tm); /* Next chunk data will be after first. */
 			continue;
 		}
 		memmove(cur_wr_pos, (end_line + 2), tm); /* Move data in buffer. */
